@@ -32,7 +32,7 @@ def rnb(repo: Repo) -> List[Ob]:
         if fi.module.relpath.startswith("examples/"):
             continue
         n_funcs += 1
-        fn = fi.node
+        fn = fi.orig or fi.node      # name binding is a fact about the function as written
         props = props_of(fi)
         locals_, limports, outer = local_bindings(fn)
         ann = annotation_nodes(fn)
